@@ -317,11 +317,16 @@ func (c *c10ctx) scope() []*ssa.Function {
 			out = append(out, fn)
 			continue
 		}
+		pushes := false
 		for _, s := range ss {
 			if _, ok := s.in.(*ssa.Alloc); ok {
-				out = append(out, fn)
+				pushes = true
 				break
 			}
+		}
+		// pull writes a branch directly only on its create path
+		if pushes || funcName(fn) == "cmd/wrgl.pullSingleRepo" {
+			out = append(out, fn)
 		}
 	}
 	return out
@@ -330,11 +335,14 @@ func (c *c10ctx) scope() []*ssa.Function {
 func init() {
 	register(&Rule{
 		ID: "C10-a", Template: "T4 permit-cut",
-		Doc: "In fetch (every function of cmd/wrgl/fetch that writes refs) and push (every function of cmd/wrgl that builds receivePackUpdate requests), each update site is unreachable once these permit edges are removed: IsAncestorOf()==true, force flag / Refspec.Force true, previous value absent (nil / not in the remote ref map), new value nil (push delete). A site reachable with no permit is a non-forced, non-fast-forward update for some history.",
+		Doc: "In fetch (every function of cmd/wrgl/fetch that writes refs), push (every function of cmd/wrgl that builds receivePackUpdate requests) and pull (pullSingleRepo, which writes a branch directly only to create it), each update site is unreachable once these permit edges are removed: IsAncestorOf()==true, force flag / Refspec.Force true, previous value absent (nil / not in the remote ref map), new value nil (push delete). A site reachable with no permit is a non-forced, non-fast-forward update for some history.",
 		Min: 9,
 		Run: func(p *Program, r *RuleResult) error {
 			c, err := newC10(p)
 			if err != nil {
+				return err
+			}
+			if _, err := p.Func("cmd/wrgl.pullSingleRepo"); err != nil {
 				return err
 			}
 			fns := c.scope()
